@@ -846,6 +846,12 @@ impl TypeChecker {
     ) -> TypeResult<bool> {
         use ast::BinOp::*;
 
+        // The special cases for `/` and `+` below check the left operand. If
+        // they do not apply, the general case continues with that result
+        // instead of checking the left operand again. Checking it twice made
+        // the time to check `a + b + c + ..` double with every operator.
+        let mut checked_left = None;
+
         // There's a special case: constructing prefixes with `/`
         // We do a conservative check on the left hand side to see if it
         // could be an ip address. This (hopefully) does not conflict with the
@@ -856,6 +862,7 @@ impl TypeChecker {
 
             let mut diverges = false;
             diverges |= self.expr(scope, &ctx_left, left)?;
+            checked_left = Some((var.clone(), diverges));
 
             let resolved = self.resolve_type(&var);
 
@@ -886,6 +893,7 @@ impl TypeChecker {
 
             let mut diverges = false;
             diverges |= self.expr(scope, &ctx_new, left)?;
+            checked_left = Some((var.clone(), diverges));
 
             let resolved = self.resolve_type(&var);
 
@@ -971,11 +979,16 @@ impl TypeChecker {
                 Ok(diverges)
             }
             Add | Sub | Mul | Div => {
-                let operand_ty = self.fresh_var();
+                let left_is_checked = checked_left.is_some();
+                let (operand_ty, mut diverges) = match checked_left {
+                    Some(checked) => checked,
+                    None => (self.fresh_var(), false),
+                };
                 let new_ctx = ctx.with_type(operand_ty.clone());
 
-                let mut diverges = false;
-                diverges |= self.expr(scope, &new_ctx, left)?;
+                if !left_is_checked {
+                    diverges |= self.expr(scope, &new_ctx, left)?;
+                }
 
                 if self.type_info.is_numeric_type(&operand_ty) {
                     diverges |= self.expr(scope, &new_ctx, right)?;
